@@ -1008,7 +1008,8 @@ fn ops_case(which: Which, data: &[u8], st: &mut Stats) -> PResult {
 fn ops_case_inner(which: Which, data: &[u8], st: &mut Stats) -> PResult {
     let mut src = Src::new(data);
     let inject = which == Which::C10;
-    let big = which == Which::C10 && src.chance(60);
+    // packets beyond 8192 bytes (C10: size limit) and beyond 16383 bytes (all: pointer reach)
+    let big = if which == Which::C10 { src.chance(60) } else { src.chance(14) };
     let (pp, model, start) = match gen_start(&mut src, big) {
         Some(x) => x,
         None => {
